@@ -32,7 +32,9 @@ PART_FILES = ["fv.bin", "meta.bin", "metadata.json", "primary.bin", "tag.type", 
 THEOREMS = ["Banyan.C04." + t for t in [
     "writeAtomic_atomic", "writeAtomic_durable", "recovery_spec", "recover_treeOK", "recover_treeOK0",
     "nsok_apply", "inv_at_cut", "acc_at_cut", "cut_decomposition", "crash_recovers_kill", "crash_recovers_power",
-    "crash_recovers_prefix_partial", "crash_recovers_prefix", "crash_recovers_published", "served_batches_of_acc",
+    "crash_recovers_prefix_partial", "crash_recovers_prefix", "crash_recovers_prefix_as_written",
+    "crash_recovers_batches", "crash_recovers_published", "served_batches_of_acc", "recoverWith_treeOK",
+    "recoverWith_treeOK0",
     "opSteps_split", "opPre_ends_with_publication", "pubDone_take_opPre", "pubDone_opPre",
     "recoverLegacy_leaves_stale_manifest", "recover_removes_stale_manifest",
     "recoverLegacy_leaves_tmp_manifest", "recover_removes_tmp_manifest"]] + ["Banyan.Tie.C04." + t for t in [
